@@ -87,6 +87,25 @@ fn ident_u32(v: u32) -> u32 { v }
 fn ok_u32(v: u32) -> darling::Result<u32> { Ok(v) }
 fn seven() -> u32 { 7 }
 
+// names are data, never code: a rename may hold anything a string can (braces, quotes,
+// backslashes, percent signs, nothing at all), on every kind of member and on variants
+#[derive(Debug, darling::FromMeta)]
+pub struct OddNames {
+    #[darling(multiple, rename = "item{s}")] pub a: Vec<u32>,
+    #[darling(multiple, rename = "{}")] pub b: Vec<u32>,
+    #[darling(default, rename = "}{")] pub c: u32,
+    #[darling(default, rename = "q\"uote\\back")] pub d: u32,
+    #[darling(default, rename = "{0} {name} %s")] pub e: Option<u32>,
+    #[darling(default, rename = "")] pub f: u32,
+    #[darling(default, rename = "r#type")] pub g: u32,
+    #[darling(multiple, rename = "a::b")] pub h: Vec<u32>,
+}
+#[derive(Debug, darling::FromMeta)]
+pub enum OddVariants { #[darling(rename = "{}")] A, #[darling(rename = "item{s}")] B(u32), #[darling(rename = "q\"uote")] C { #[darling(rename = "{x}", multiple)] x: Vec<u32> }, #[darling(rename = "")] D }
+#[derive(Debug, darling::FromDeriveInput)]
+#[darling(attributes(a))]
+pub struct OddNamesDi { #[darling(multiple, rename = "it{em")] pub a: Vec<u32>, #[darling(default, rename = "}")] pub b: u32 }
+
 // non-capturing closures in every position that accepts one
 #[derive(Debug, darling::FromMeta)]
 #[darling(from_word = || Ok(Closures { a: 1, b: 2 }), from_none = || None)]
@@ -105,6 +124,10 @@ fn main() {
     fn need_field<X: darling::FromField>() {}
     need_field::<SkipFromFn>();
     need_meta::<EClosures>();
+    need_meta::<OddNames>();
+    need_meta::<OddVariants>();
+    fn need_di<X: darling::FromDeriveInput>() {}
+    need_di::<OddNamesDi>();
 }
 "#;
 
